@@ -322,14 +322,18 @@ class StdioClient:
 
                         if model_dump_json_method is not None:
                             # Pydantic model - use direct model_dump_json (FAST: single pass)
-                            json_str = model_dump_json_method(exclude_none=True)
+                            # (by_alias: a typed object inside the message - a typed result,
+                            # say - goes out under its wire names, "_meta" not "meta")
+                            json_str = model_dump_json_method(
+                                exclude_none=True, by_alias=True
+                            )
                         else:
                             model_dump_method = getattr(message, "model_dump", None)
                             if model_dump_method is not None:
                                 # Fallback: model_dump then json.dumps (SLOWER: two passes)
                                 # This path should be rare in practice
                                 json_str = json.dumps(
-                                    model_dump_method(exclude_none=True)
+                                    model_dump_method(exclude_none=True, by_alias=True)
                                 )
                             else:
                                 # Last resort: try to serialize as-is
